@@ -44,15 +44,22 @@ MANIFEST = dict(
          "add_back, clear, and the backwards walk of sort_ids / get_for_list): a representation relation R between "
          "abstract duplicate-free lists and the table is preserved by every operation, and on every table satisfying R "
          "the walk returns each item of a key exactly once, in order — instantiated for Playlist (key = parent) and "
-         "PlaylistEntity (key = playlist) and lifted to all histories of the modelled 2.x crate API. The model is tied "
-         "to the real library on generated histories (first / middle / last positions forced) with the ordered listings "
-         "and the raw nextListId / nextEntityId columns compared after every step, and a Spec oracle judges the real "
-         "library's own listings.",
+         "PlaylistEntity (key = playlist, payload = track id and database uuid) and lifted to all histories of the "
+         "modelled 2.x API: a Spec run (sibling lists, entry lists with payload; computed from the Spec state, the call "
+         "and the Model's answer only) is represented by the tables after every prefix, every listing equals the Spec "
+         "list, and every listing changes across an operation exactly as the property prescribes (insert-after "
+         "position, new / moved crate last, removal keeps the rest in order). The schema-free model is justified by a "
+         "kernel-checked fact over data regenerated on every run: the crate tables, triggers, views and unique "
+         "indexes have the same canonical DDL in all seven 2.x versions. The model is tied to the real library on "
+         "generated histories (first / middle / last positions forced; entries of three databases with colliding "
+         "track ids) with the ordered listings and the raw nextListId / nextEntityId columns compared after every "
+         "step, and a Spec oracle judges the real library's own listings.",
     note="Trusted: Lean kernel; the hand translation of SQL statements / triggers to list operations (SqliteSemantics, "
-         "validated by the tie); SQLite itself. Same-parent re-ordering through playlist_table::update is modelled but the "
-         "simulation theorem covers moves to a different parent (all the crate API performs).",
+         "validated by the tie); SQLite itself; tools/tr_v2ddl.py incl. the compiled canonicaliser. Same-parent "
+         "re-ordering through playlist_table::update is modelled but the simulation theorem covers moves to a "
+         "different parent (all the crate API performs). Known finding: table-level entries with trackId <= 0.",
     technique="Lean 4 representation-relation / simulation proof over an executable model + differential replay with "
-              "raw-table observation + Spec oracle on the implementation's answers",
+              "raw-table observation + Spec oracle on the implementation's answers + translator for the schema facts",
     ref="6/C09")
 TRUSTED_EXTRA = ["tools/tr_v2ddl.py (catalog of every created 2.x version -> Lean data; DDL canonicalised by the compiled Spec/SqlCanon.canon)"]
 TRANSLATORS = {"v2ddl": cv.translate_ddl}
